@@ -426,6 +426,18 @@ def twin_family(seed, tier, ws):
                 b = 'empty @is_you(%s) { if (%s) { write(\'T\'); } else { write(\'F\'); } }' % (params, vtext if t[0] not in 'LBUCI' else '(%s is bool)' % vtext)
             items.append(runner.Item(('twin', w, i), a, [], w=w, s=60, sem_src=b, sem_args=args,
                                      meta={'family': 'twin:' + form, 'twin': (a, b, args), 'classifier': {'form': form}}))
+    # the two shapes of the recorded finding F6, in every run (so that each listed finding is shown on every run)
+    if 2 in ws:
+        a = 'empty @is_you() { writeln((32767 + 1) / 2); }'
+        b = 'empty @is_you(int v0, int v1, int v2) { writeln((v0 + v1) / v2); }'
+        args = ['32767', '1', '2']
+        items.append(runner.Item(('twin', 2, 'f6'), a, [], w=2, s=60, sem_src=b, sem_args=args,
+                                 meta={'family': 'twin:write', 'twin': (a, b, args), 'classifier': {'form': 'write'}}))
+        a = "empty @is_you() { if (((((1000 % 1) / (-2)) / ((32767 - 7) / (32766 + 127))) is bool)) { write('T'); } else { write('F'); } }"
+        b = "empty @is_you(int v0, int v1, int v2, int v3, int v4, int v5, int v6) { if (((((v0 % v1) / v2) / ((v3 - v4) / (v5 + v6))) is bool)) { write('T'); } else { write('F'); } }"
+        args = ['1000', '1', '-2', '32767', '7', '32766', '127']
+        items.append(runner.Item(('twin', 2, 'f6r'), a, [], w=2, s=60, sem_src=b, sem_args=args,
+                                 meta={'family': 'twin:cond', 'twin': (a, b, args), 'classifier': {'form': 'cond'}}))
     return items
 
 
